@@ -19,6 +19,8 @@ import (
 	"reflect"
 	"strconv"
 	"strings"
+
+	goyaml "github.com/goccy/go-yaml"
 )
 
 type jsonDec struct {
@@ -435,4 +437,128 @@ func (d *jsonDec) fromGeneric(g interface{}) value {
 		return iface{t: d.i.m.mapOfAny(), v: m}
 	}
 	panic(unsupported(fmt.Sprintf("json generic value %T", g)))
+}
+
+// ---- YAML schema files (goccy/go-yaml) and json.Marshal of generic values ----
+//
+// FromYAMLReader decodes the file generically with goccy/go-yaml, fixes map keys, marshals the
+// result to JSON and hands that to the JSON parser.  For a virtual file with concrete content
+// the real goccy decoder is run on the bytes (it is a library: its result is converted to
+// interpreter values, nothing of it is interpreted); json.Marshal is the real one on the
+// converted-back generic tree.
+
+func (d *jsonDec) fromYAMLGeneric(g interface{}) value {
+	switch x := g.(type) {
+	case nil:
+		return iface{}
+	case bool:
+		return iface{t: types.Typ[types.Bool], v: x}
+	case string:
+		return iface{t: types.Typ[types.String], v: x}
+	case float64:
+		return iface{t: types.Typ[types.Float64], v: x}
+	case int:
+		return iface{t: types.Typ[types.Int], v: x}
+	case int64:
+		return iface{t: types.Typ[types.Int64], v: x}
+	case uint64:
+		return iface{t: types.Typ[types.Uint64], v: x}
+	case []interface{}:
+		out := make([]value, len(x))
+		for k, e := range x {
+			out[k] = d.fromYAMLGeneric(e)
+		}
+		return iface{t: d.i.m.sliceOfAny(), v: out}
+	case map[string]interface{}:
+		m := makeMap(types.Typ[types.String], int64(len(x)))
+		for k, e := range x {
+			mapSet(m, k, d.fromYAMLGeneric(e))
+		}
+		return iface{t: d.i.m.mapOfAny(), v: m}
+	}
+	panic(unsupported(fmt.Sprintf("YAML value of type %T (non-string map keys and custom tags are outside the model)", g)))
+}
+
+// genericToGo converts an interpreter value that is a generic JSON-like tree back to Go.
+func genericToGo(v value) interface{} {
+	switch x := v.(type) {
+	case iface:
+		if x.t == nil {
+			return nil
+		}
+		return genericToGo(x.v)
+	case nil:
+		return nil
+	case bool, string, int, int8, int16, int32, int64, uint, uint8, uint16, uint32, uint64, float32, float64:
+		return x
+	case []value:
+		out := make([]interface{}, len(x))
+		for k, e := range x {
+			out[k] = genericToGo(e)
+		}
+		return out
+	case map[value]value:
+		if x == nil {
+			return map[string]interface{}(nil)
+		}
+		out := map[string]interface{}{}
+		for k, e := range x {
+			ks, ok := k.(string)
+			if !ok {
+				panic(unsupported("json.Marshal of a map with non-string keys"))
+			}
+			out[ks] = genericToGo(e)
+		}
+		return out
+	}
+	panic(unsupported(fmt.Sprintf("json.Marshal of %T (only generic trees are modelled)", v)))
+}
+
+func init() {
+	natives["encoding/json.Marshal"] = func(fr *frame, a []value) value {
+		b, err := json.Marshal(genericToGo(a[0]))
+		if err != nil {
+			return tuple{[]value(nil), fr.i.mkError(err.Error())}
+		}
+		return tuple{bytesVal(b), iface{}}
+	}
+	natives["github.com/goccy/go-yaml.NewDecoder"] = func(fr *frame, a []value) value {
+		r := a[0].(iface)
+		f := fr.i.handleOf(r.v)
+		if f == nil {
+			panic(unsupported("yaml.NewDecoder on a reader that is not a virtual file: " + typeString(r.t)))
+		}
+		var cell value = structure{f}
+		return &cell
+	}
+	natives["(*github.com/goccy/go-yaml.Decoder).Decode"] = func(fr *frame, a []value) value {
+		p, _ := a[0].(*value)
+		f, _ := (*p).(structure)[0].(*vfsFile)
+		if f == nil || f.data == nil {
+			return fr.i.mkError("EOF")
+		}
+		data := f.data
+		f.data = nil
+		target := a[1].(iface)
+		pt, ok := target.t.Underlying().(*types.Pointer)
+		if !ok {
+			return fr.i.mkError("yaml: Decode(non-pointer)")
+		}
+		mt, ok := pt.Elem().Underlying().(*types.Map)
+		if !ok || !types.Identical(mt, fr.i.m.mapOfAny()) {
+			panic(unsupported("yaml Decode into " + typeString(pt.Elem()) + " (only map[string]interface{} is modelled)"))
+		}
+		var g map[string]interface{}
+		if err := goyaml.Unmarshal(data, &g); err != nil {
+			return fr.i.mkError(err.Error())
+		}
+		d := &jsonDec{i: fr.i, fr: fr}
+		cell := target.v.(*value)
+		if g == nil {
+			*cell = zero(pt.Elem())
+			return iface{}
+		}
+		*cell = d.fromYAMLGeneric(g).(iface).v
+		return iface{}
+	}
 }
